@@ -215,10 +215,34 @@ var histories = []history{
 	{"skip-then-verify-mixed-sig-untrusted", []string{"othsig", "srvenc"}, clientTweak{skip: true, roots: "root", name: "test.example"}, defaultClient},
 }
 
+// named client configurations for the generated histories of the thorough tier
+var tweaks = map[string]clientTweak{
+	"verify":       defaultClient,
+	"skip":         {skip: true, roots: "root", name: "test.example"},
+	"empty-roots":  {roots: "empty", name: "test.example"},
+	"other-roots":  {roots: "other", name: "test.example"},
+	"wrong-name":   {roots: "root", name: "wrong.example"},
+	"no-name":      {roots: "root", name: ""},
+	"moved-clock":  {roots: "root", name: "test.example", shift: 10 * year},
+	"early-clock":  {roots: "root", name: "test.example", shift: -10 * year},
+	"skip-no-root": {skip: true},
+}
+var tweakOrder = []string{"verify", "skip", "empty-roots", "other-roots", "wrong-name", "no-name", "moved-clock", "early-clock", "skip-no-root"}
+var genChains = [][]string{{"srvsig", "srvenc"}, {"othsig", "othenc"}, {"srvsig", "othenc"}, {"namesig", "srvenc"}, {"srvsig", "expenc"}}
+
+// historyByName: a catalogue name, or a generated one `gen/<sig>+<enc>/<first>/<second>`.
 func historyByName(n string) (history, bool) {
 	for _, h := range histories {
 		if h.name == n {
 			return h, true
+		}
+	}
+	if parts := strings.Split(n, "/"); len(parts) == 4 && parts[0] == "gen" {
+		chain := strings.Split(parts[1], "+")
+		t1, ok1 := tweaks[parts[2]]
+		t2, ok2 := tweaks[parts[3]]
+		if len(chain) == 2 && leaves[chain[0]] != nil && leaves[chain[1]] != nil && ok1 && ok2 {
+			return history{n, chain, t1, t2}, true
 		}
 	}
 	return history{}, false
@@ -453,6 +477,21 @@ type scriptPeer interface {
 	SendAppData([]byte) error
 	PeerFinishedOK() bool
 	WriteProtected() bool
+	HasMaster() bool
+	HeaderLen() int // length of the handshake header in front of the body handed to Mutate
+}
+
+// reframe puts body behind a copy of raw's handshake header (4 bytes: type, length; 12 bytes:
+// type, length, message_seq, fragment_offset 0, fragment_length) with the lengths adjusted.
+func reframe(raw []byte, hdr int, body []byte) []byte {
+	out := append([]byte(nil), raw[:hdr]...)
+	n := len(body)
+	out[1], out[2], out[3] = byte(n>>16), byte(n>>8), byte(n)
+	if hdr == 12 {
+		out[6], out[7], out[8] = 0, 0, 0
+		out[9], out[10], out[11] = byte(n>>16), byte(n>>8), byte(n)
+	}
+	return append(out, body...)
 }
 
 type scriptOpts struct {
@@ -547,9 +586,9 @@ func runReal(lk link, cc clientCfg, sc serverCfg) runResult {
 		}
 	}
 	// give the server the time to finish on its own, then stop it
-	wait := 300 * time.Millisecond
+	wait := 150 * time.Millisecond
 	if cerr == nil {
-		wait = 3 * time.Second
+		wait = 15 * time.Second
 	}
 	stopped := false
 	select {
@@ -615,10 +654,16 @@ func runScript(lk link, cc clientCfg, sc serverCfg, plan scriptPlan) (runResult,
 			_ = sp.Send("ServerHelloDone", scriptOpts{})
 			for {
 				k, err := sp.ReadKind()
+				if err != nil && strings.Contains(err.Error(), "cannot open record") {
+					// an impostor without the key-exchange private key cannot read the client's
+					// Finished; it answers all the same, with what it has
+					break
+				}
 				if err != nil || k == "Alert" {
 					return
 				}
-				if k == "Finished" {
+				if k == "Finished" || (k == "ChangeCipherSpec" && !sp.HasMaster()) {
+					// (without a master secret the client's protected Finished is unreadable)
 					break
 				}
 			}
@@ -702,9 +747,11 @@ func runScenario(cd caseDesc, sc scenario, su suiteInfo) (verdicts, observation,
 		fullVerdicts(&v, su, r.c2s, r.s2c, tw, su.ecdhe, ts, r.s2c.ccs && r.s2c.hsAfterCCS)
 		return v, r.obs, true
 	}
-	if lk.scriptServer(serverCfg{suite: su.id}) == nil {
+	probe := lk.scriptServer(serverCfg{suite: su.id})
+	if probe == nil {
 		return v, observation{}, false
 	}
+	hdr := probe.HeaderLen()
 	// scripted server: needs two key pairs to compute with even when it presents fewer certificates
 	own := keyPairs([]string{"srvsig", "srvenc"}, "", "")
 	for i, kp := range scfg.certs {
@@ -758,8 +805,8 @@ func runScenario(cd caseDesc, sc scenario, su suiteInfo) (verdicts, observation,
 		pt := ek.PublicKey().Bytes()
 		plan.skxOpts.Mutate = func(raw []byte) []byte {
 			out := append([]byte(nil), raw...)
-			if len(out) >= 8+len(pt) && int(out[7]) == len(pt) {
-				copy(out[8:], pt)
+			if len(out) >= hdr+4+len(pt) && int(out[hdr+3]) == len(pt) {
+				copy(out[hdr+4:], pt)
 			}
 			return out
 		}
@@ -772,24 +819,24 @@ func runScenario(cd caseDesc, sc scenario, su suiteInfo) (verdicts, observation,
 		ts.intact = false
 	case "empty-sig":
 		plan.skxOpts.Mutate = func(raw []byte) []byte {
-			body := raw[4:]
+			body := raw[hdr:]
 			if su.ecdhe && len(body) >= 4 {
 				body = append(append([]byte(nil), body[:4+int(body[3])]...), 0, 0)
 			} else {
 				body = []byte{0, 0}
 			}
-			return append([]byte{raw[0], 0, 0, byte(len(body))}, body...)
+			return reframe(raw, hdr, body)
 		}
 		ts.intact = false
 	case "truncated":
 		plan.skxOpts.Mutate = func(raw []byte) []byte {
-			body := raw[4:]
+			body := raw[hdr:]
 			if su.ecdhe && len(body) >= 4 {
 				body = body[:4+int(body[3])]
 			} else {
 				body = body[:1]
 			}
-			return append([]byte{raw[0], 0, 0, byte(len(body))}, body...)
+			return reframe(raw, hdr, body)
 		}
 		ts.intact = false
 	}
@@ -799,8 +846,8 @@ func runScenario(cd caseDesc, sc scenario, su suiteInfo) (verdicts, observation,
 	case "bad-head":
 		plan.finMutate = func(raw []byte) []byte {
 			out := append([]byte(nil), raw...)
-			if len(out) > 4 {
-				out[4] ^= 0x80
+			if len(out) > hdr {
+				out[hdr] ^= 0x80
 			}
 			return out
 		}
@@ -879,6 +926,20 @@ func enumerate(o hx.Opts) []caseDesc {
 			}
 		}
 	}
+	if o.Tier == "thorough" {
+		// every pair of client configurations over five server identities, all suites, both stacks
+		for _, st := range []string{"tlcp", "dtlcp"} {
+			for _, su := range suites {
+				for _, ch := range genChains {
+					for _, a := range tweakOrder {
+						for _, b := range tweakOrder {
+							add(st, su.name, fmt.Sprintf("hist:gen/%s+%s/%s/%s", ch[0], ch[1], a, b), tweaks[b].skip)
+						}
+					}
+				}
+			}
+		}
+	}
 	return out
 }
 
@@ -898,7 +959,9 @@ type outLine struct {
 	ok        bool
 }
 
-func runCase(cd caseDesc) outLine {
+func runCase(cd caseDesc) outLine { return runCaseN(cd, 0) }
+
+func runCaseN(cd caseDesc, attempt int) outLine {
 	su, ok := suiteByName(cd.suite)
 	if !ok || (cd.stack != "tlcp" && cd.stack != "dtlcp") {
 		return outLine{}
@@ -926,6 +989,10 @@ func runCase(cd caseDesc) outLine {
 		fmt.Fprintf(os.Stderr, "c02: driver panic in %s: %s\n", cd.key(), p)
 		return outLine{}
 	}
+	// a watchdog timeout of the driver (loaded machine) is not an observation: run the case again
+	if ran && obs.class == "timeout" && attempt < 2 {
+		return runCaseN(cd, attempt+1)
+	}
 	if !ran {
 		return outLine{}
 	}
@@ -948,8 +1015,8 @@ func main() {
 	}
 	results := make([]outLine, len(cases))
 	workers := runtime.NumCPU()
-	if workers > 12 {
-		workers = 12
+	if workers > 16 {
+		workers = 16
 	}
 	if workers < 2 {
 		workers = 2
@@ -961,7 +1028,11 @@ func main() {
 		go func() {
 			defer wg.Done()
 			for i := range idx {
+				t0 := time.Now()
 				results[i] = runCase(cases[i])
+				if d := time.Since(t0); d > 5*time.Second {
+					fmt.Fprintf(os.Stderr, "c02: slow case (%.1fs): %s => %s\n", d.Seconds(), cases[i].key(), results[i].obs)
+				}
 			}
 		}()
 	}
